@@ -7,7 +7,7 @@
 From Coq Require Import ZArith List Bool Lia.
 From ADF Require Import CPrelude Generated.Layout Generated.Leaf Model.Bitmap Proofs.BitmapP Proofs.ConserveP Proofs.AllocCountP Proofs.GeometryP Model.FileMap Proofs.FileMapP.
 From Coq Require Import Permutation.
-From ADF Require Model.FileIO Proofs.FileIOP.
+From ADF Require Model.FileIO Proofs.FileIOP Proofs.FileIOCycleP.
 Import ListNotations.
 Local Open Scope Z_scope.
 
@@ -77,7 +77,20 @@ Theorem C05_alloc_lowers_count_by_want : forall b root last want l b', 2 < root 
   get_free_blocks b root last want = Some (l, b') -> count_free b' last = count_free b last - Z.of_nat want.
 Proof. exact alloc_count. Qed.
 
+(* append and take back, on the file handle model: appending to a file and truncating it to its old size restores the block lists and the
+   content exactly, and the blocks the truncation hands to adfSetBlockFree are exactly the data and extension blocks the append had linked *)
+Theorem C05_append_then_truncate_back_restores : forall bs ofs key, 0 < bs -> forall s L E ct data al al2,
+  FileIOP.Inv bs ofs key s L E -> FileIOP.Repr bs s L ct -> FileIO.mw s = true -> FileIOP.al_ok key L E al ->
+  FileIO.pos s = FileIO.fsize s -> data <> [] ->
+  exists s1 w al1 nl ne, FileIO.fio_write bs ofs FileIOP.nobad s data al = (s1, w, al1) /\ FileIOP.Inv bs ofs key s1 (L ++ nl) (E ++ ne) /\
+    FileIOP.Repr bs s1 (L ++ nl) (ct ++ firstn (Z.to_nat w) data) /\
+    (0 < w ->
+     exists s2 rem, FileIO.fio_truncate bs ofs FileIOP.nobad s1 (FileIO.fsize s) al2 = (true, s2, rem, al2) /\ FileIOP.Inv bs ofs key s2 L E /\
+       FileIOP.Repr bs s2 L ct /\ FileIO.fsize s2 = FileIO.fsize s /\ Permutation rem (nl ++ ne)).
+Proof. exact FileIOCycleP.append_then_truncate_back. Qed.
+
 Print Assumptions C05_count.
+Print Assumptions C05_append_then_truncate_back_restores.
 Print Assumptions C05_alloc_lowers_count_by_want.
 Print Assumptions C05_count_after_taking.
 Print Assumptions C05_count_after_releasing.
